@@ -253,6 +253,11 @@ def build(case, Q):
             exp["foreign1__whr"] = (True, "foreign1")
         q = q.groupby(*[s.f("grp") for s in srcs]).having(FN.Sum(srcs[-1].f("hav")) > 0).orderby(*[s.f("ord") for s in srcs])
         expect(srcs, ["sel", "whr", "grp", "ord", "on"], multi)
+        if is_pg:
+            # the dialect's own column list: DISTINCT ON (columns given as Field objects of their sources; a name given as a
+            # string is a column without a source there and is not claimed)
+            q = q.distinct_on(*[s.f("don") for s in srcs])
+            expect(srcs, ["don"], multi)
         expect(srcs[-1:], ["selx", "hav"], multi)
         expect(srcs[:1], ["selc"], multi)
         exp["shared__using"] = (False, None)
